@@ -229,7 +229,7 @@ func (e *exec) Do(line string) string {
 		if a {
 			// like ScanStorage: a version is reported as available because its file is there
 			if sv, err := semver.NewVersion(ver); err == nil {
-				touchFile(filepath.Join(e.dir, filepath.FromSlash(updater.GetVersionedPath(id, sv.String()))))
+				touchFile(filepath.Join(e.dir, filepath.FromSlash(refVersionedPath(id, sv.String()))))
 			}
 		}
 		if err := e.reg.AddResource(id, ver, idx, a, c, p); err != nil {
@@ -242,7 +242,7 @@ func (e *exec) Do(line string) string {
 		if err != nil || e.reg.VerifResource(id) == nil {
 			return "err notfound"
 		}
-		p := filepath.Join(e.dir, filepath.FromSlash(updater.GetVersionedPath(id, sv.String())))
+		p := filepath.Join(e.dir, filepath.FromSlash(refVersionedPath(id, sv.String())))
 		switch f[3] {
 		case "1":
 			touchFile(p + ".sig")
@@ -331,6 +331,18 @@ func (e *exec) Do(line string) string {
 			return "none"
 		}
 		return "ok " + hexTok(id) + " " + hexTok(v)
+	case f[0] == "rt" && len(f) == 3:
+		id, v, ok := updater.GetIdentifierAndVersion(updater.GetVersionedPath(tok(f[1]), tok(f[2])))
+		if !ok {
+			return "none"
+		}
+		return "ok " + hexTok(id) + " " + hexTok(v)
+	case f[0] == "rtb" && len(f) == 2:
+		id, v, ok := updater.GetIdentifierAndVersion(tok(f[1]))
+		if !ok {
+			return "none"
+		}
+		return "ok " + hexTok(updater.GetVersionedPath(id, v))
 	case f[0] == "rawver" && len(f) == 2:
 		if updater.VerifRawVersionMatch(tok(f[1])) {
 			return "match"
@@ -357,10 +369,10 @@ func (e *exec) Do(line string) string {
 // monitor: the property statement read literally on implementation outputs (no use of the model)
 
 type mVer struct {
-	num              string
-	sv               *semver.Version
-	avail, cur, pre  bool
-	bl               bool
+	num             string
+	sv              *semver.Version
+	avail, cur, pre bool
+	bl              bool
 }
 
 type mRes struct {
@@ -486,9 +498,20 @@ func in(x string, l []string) bool {
 	return false
 }
 
+// refVersionedPath is the documented naming, written independently of the code under test:
+// "<dir>/<stem>_v<x>-<y>-<z>[-pre][.<ext>]", the version in front of the first dot of the file name.
+func refVersionedPath(id, ver string) string {
+	dir, file := splitPath(id)
+	stem, ext := file, ""
+	if i := strings.IndexByte(file, '.'); i >= 0 {
+		stem, ext = file[:i], file[i:]
+	}
+	return dir + stem + "_v" + strings.Join(strings.SplitN(ver, ".", 3), "-") + ext
+}
+
 // filesOf lists the paths that belong to one version of a resource (file, signature, unpacked copy).
 func filesOf(id, num string) []string {
-	p := updater.GetVersionedPath(id, num)
+	p := refVersionedPath(id, num)
 	out := []string{p, p + ".sig"}
 	if ext := filepath.Ext(p); ext != "" {
 		out = append(out, strings.TrimSuffix(p, ext))
@@ -532,33 +555,28 @@ func monitor(c hxlib.Case, outs []string) (vs []hxlib.Violation) {
 				fl.dev, _ = b01(f[2])
 				fl.usePre, _ = b01(f[3])
 			}
-		case "vpath":
-			// round trip (identifier, version) -> file name -> (identifier, version), documented format only
-			if i+1 < len(c.Lines) && len(f) == 3 {
+		case "rt":
+			// (identifier, version) -> file name -> (identifier, version), documented format only
+			if len(f) == 3 {
 				id, ver := tok(f[1]), tok(f[2])
-				nf := strings.Fields(c.Lines[i+1])
 				_, file := splitPath(id)
 				stem := strings.SplitN(file, ".", 2)[0]
-				if len(nf) == 2 && nf[0] == "idver" && "x:"+o == nf[1] && docVersion.MatchString(ver) && !docFileVersion.MatchString(stem) {
-					want := "ok " + hexTok(id) + " " + hexTok(ver)
-					if outs[i+1] != want {
-						add(i+1, "C19:filename-roundtrip", fmt.Sprintf("GetIdentifierAndVersion(GetVersionedPath(%q,%q)) = %s, want %s", id, ver, outs[i+1], want))
+				if docVersion.MatchString(ver) && !docFileVersion.MatchString(stem) {
+					if want := "ok " + hexTok(id) + " " + hexTok(ver); o != want {
+						add(i, "C19:filename-roundtrip", fmt.Sprintf("GetIdentifierAndVersion(GetVersionedPath(%q,%q)) = %s, want %s", id, ver, o, want))
 					}
 					count("roundtrip:id-ver-to-name")
 				}
 			}
-		case "idver":
-			// round trip file name -> (identifier, version) -> file name, when the version sits before the first dot
-			if i+1 < len(c.Lines) && strings.HasPrefix(o, "ok ") {
-				of := strings.Fields(o)
-				nf := strings.Fields(c.Lines[i+1])
+		case "rtb":
+			// file name -> (identifier, version) -> file name, when the version sits directly in front of the extension
+			if len(f) == 2 {
 				p := tok(f[1])
 				_, file := splitPath(p)
 				loc := docFileVersion.FindStringIndex(file)
-				if len(nf) == 3 && nf[0] == "vpath" && nf[1] == "x:"+of[1] && nf[2] == "x:"+of[2] && loc != nil && !strings.Contains(file[:loc[0]], ".") &&
-					(loc[1] == len(file) || file[loc[1]] == '.') {
-					if outs[i+1] != hexTok(p) {
-						add(i+1, "C19:filename-roundtrip-back", fmt.Sprintf("GetVersionedPath(GetIdentifierAndVersion(%q)) = %q", p, string(hxlib.UnHex(outs[i+1]))))
+				if loc != nil && !strings.Contains(file[:loc[0]], ".") && (loc[1] == len(file) || file[loc[1]] == '.') {
+					if want := "ok " + hexTok(p); o != want {
+						add(i, "C19:filename-roundtrip-back", fmt.Sprintf("GetVersionedPath(GetIdentifierAndVersion(%q)) = %s, want %s", p, o, want))
 					}
 					count("roundtrip:name-to-id-ver")
 				}
@@ -635,10 +653,17 @@ func checkOp(c hxlib.Case, outs []string, k, at int, before, after *mState, fl r
 		if strings.HasPrefix(o, "file ") {
 			of := strings.Fields(o)
 			count("getfile:file")
+			if br != nil {
+				for _, v := range br.vs {
+					if len(of) == 3 && v.num == of[1] && !v.avail {
+						count("getfile:downloaded")
+					}
+				}
+			}
 			if len(of) != 3 || of[1] != r.sel {
 				add("C19:getfile-version", fmt.Sprintf("GetFile(%s) handed out %q but the selected version is %s", id, o, r.sel))
 			} else {
-				if of[2] != updater.GetVersionedPath(id, of[1]) {
+				if of[2] != refVersionedPath(id, of[1]) {
 					add("C19:getfile-path", fmt.Sprintf("GetFile(%s) path %s is not the versioned path of %s", id, of[2], of[1]))
 				}
 				if r.act != of[1] {
@@ -693,9 +718,6 @@ func checkOp(c hxlib.Case, outs []string, k, at int, before, after *mState, fl r
 			if br.sel != "-" {
 				req[strings.TrimSuffix(br.sel, "!ghost")] = true
 			}
-			for _, s := range newest(br.vs, func(v mVer) bool { return !v.pre }) {
-				req[s] = true
-			}
 			removed := 0
 			intact := func(num string) bool {
 				for _, p := range filesOf(id, num) {
@@ -704,6 +726,21 @@ func checkOp(c hxlib.Case, outs []string, k, at int, before, after *mState, fl r
 					}
 				}
 				return true
+			}
+			// "the newest stable version" is one version: among entries of equal precedence (1.2.3 and 1.2.3+build)
+			// any one may play that role
+			if ties := newest(br.vs, func(v mVer) bool { return !v.pre }); len(ties) > 0 {
+				pickOne := ties[0]
+				for _, s := range ties {
+					if req[s] {
+						pickOne = s
+						break
+					}
+					if intact(s) && !intact(pickOne) {
+						pickOne = s
+					}
+				}
+				req[pickOne] = true
 			}
 			for _, v := range br.vs {
 				if !intact(v.num) {
@@ -732,7 +769,7 @@ func checkOp(c hxlib.Case, outs []string, k, at int, before, after *mState, fl r
 			// the resource lists as available only versions whose files exist
 			sound := func(x *mRes, st *mState) (bad string) {
 				for _, v := range x.vs {
-					if v.avail && !st.disk[updater.GetVersionedPath(id, v.num)] {
+					if v.avail && !st.disk[refVersionedPath(id, v.num)] {
 						return v.num
 					}
 				}
